@@ -38,7 +38,7 @@ PROP = "C15"
 LEVEL = "fault_enumeration"
 TECHNIQUE = "history recording + offline check against a sequential cache model; crash-point enumeration (os._exit at every LINE event and inside every file operation, follow-up in a fresh process); exhaustive two-writer schedule enumeration under gates; threaded scan stress with yield injection"
 RULE = ("(1) ALL sequences of server behaviours {newer, same, older, up-to-date, error status, garbage, transport error} of length <=3 + 200 sampled "
-        "of length 4 (quick) / ALL of length <=5 + sampled length 6 (thorough), each with one client object and with a fresh client per step; (2) every LINE event of request_profile "
+        "of length 4 (quick) / ALL of length <=5 + sampled length 6 (thorough), each with one client object, with a fresh client per step and with two long-lived clients taking turns; (2) every LINE event of request_profile "
         "after the response arrived and 6 file-operation points as crash points, each followed by a fresh-process inspection + 2 requests; "
         "(3a) ALL interleavings of two writers' file steps (70 for create/write/close/rename), cache read after every step; (3b) the real "
         "ofxget._queue_scans with random delays and yield injection; (4) client pairs over equal/different ORG x FID x URL (incl. same host, "
@@ -54,7 +54,7 @@ LEVEL_NOTE = "Crash = process death (os._exit), not power loss: no fsync semanti
 DESIGN_REF = "DESIGN.md §3 C15"
 EXHAUSTIVE = {"quick": "all behaviour sequences of length <=3 (x2 client modes); all LINE-event crash points of request_profile + 6 file-op points; all 70 two-writer schedules",
               "thorough": "all behaviour sequences of length <=5 (x2 client modes); crash points x2 body sizes; all 70 schedules x 3 body-size pairs"}
-MIN_COUNTERS = {"quick": {"seq_histories": 1100, "seq_steps": 3500, "crash_points": 20, "crash_followups": 20, "schedules": 70, "schedule_steps_observed": 250,
+MIN_COUNTERS = {"quick": {"seq_histories": 1500, "seq_steps": 5000, "crash_points": 20, "crash_followups": 20, "schedules": 70, "schedule_steps_observed": 250,
                           "scan_runs": 3, "scan_requests": 90, "wrongserver_pairs": 60},
                 "thorough": {"seq_histories": 40000, "seq_steps": 190000, "crash_points": 40, "crash_followups": 40, "schedules": 210, "schedule_steps_observed": 750,
                              "scan_runs": 30, "scan_requests": 900, "wrongserver_pairs": 400}}
@@ -139,9 +139,12 @@ def run_history(ctx, net, seq, fresh, variant):
 
     net.handler = handler
     client = OFXClient(URL, org="ORG1", fid="F1")
+    pair = [client, OFXClient(URL, org="ORG1", fid="F1")]  # two long-lived clients of the same FI taking turns
     case = {"monitor": "seq", "seq": seq, "fresh": fresh, "variant": variant}
     for i, b in enumerate(seq):
-        if fresh:
+        if fresh == "alternate":
+            client = pair[i % 2]
+        elif fresh:
             client = OFXClient(URL, org="ORG1", fid="F1")
         step_rec.clear()
         step_rec["behaviour"] = b
@@ -213,7 +216,9 @@ def seq_monitor(ctx, net):
     for i, seq in enumerate(seqs):
         if i % ctx.nshards != ctx.shard:
             continue
-        for fresh in (False, True):
+        for fresh in (False, True, "alternate"):
+            if fresh == "alternate" and len(seq) < 2:
+                continue
             run_history(ctx, net, list(seq), fresh, variant=i % 5)
             ctx.count("seq_histories")
             ctx.distinct(("seq", seq, fresh))
@@ -224,7 +229,7 @@ def seq_monitor(ctx, net):
         rng = ctx.rng
         for j in range(3000 // ctx.nshards):
             seq = [rng.choice(BEHAVIOURS) for _ in range(6)]
-            run_history(ctx, net, seq, rng.random() < 0.5, variant=j % 5)
+            run_history(ctx, net, seq, rng.choice([False, True, "alternate"]), variant=j % 5)
             ctx.count("seq_histories")
             ctx.distinct(("seq6", tuple(seq), j))
 
